@@ -38,7 +38,7 @@ META = {
 
 def run(rep):
     from ..rules import walk as _W
-    rep.run(_W.writer_sides_independent, "O17.1")
+    rep.run(_W.writer_sides_independent, "O17.1", False)
     rep.run(matrices)
     rep.run(kernels)
     rep.run(lp_sites)
